@@ -278,6 +278,20 @@ func (s *Solver) Check(extras []*Term, want []*Term) (Result, map[string]uint64)
 	t0 := time.Now()
 	r, m = f.checkInc(extras, want, s.TimeoutMs)
 	s.SolverTime += time.Since(t0)
+	if d := time.Since(t0); s.SlowLog != nil && d > 2*time.Second {
+		fmt.Fprintf(s.SlowLog, "SLOW FALLBACK QUERY %.1fs result=%v asserted=%d extras=%d\n", d.Seconds(), r, len(s.asserted), len(extras))
+		if dir := os.Getenv("SYMGO_DUMPSLOW"); dir != "" {
+			s.ndump++
+			s.DumpQuery(fmt.Sprintf("%s/f_%d_%d_%.0fs.smt2", dir, os.Getpid(), s.ndump+1000*s.Seed, d.Seconds()), extras)
+		}
+		for _, e := range extras {
+			p := Print(e)
+			if len(p) > 1500 {
+				p = p[:1500] + "..."
+			}
+			fmt.Fprintf(s.SlowLog, "   extra: %s\n", p)
+		}
+	}
 	switch r {
 	case Sat:
 		s.NSat++
@@ -381,6 +395,32 @@ func (s *Solver) checkInc(extras []*Term, want []*Term, timeoutMs int) (Result, 
 	}
 	return res, model
 }
+
+// DecideFresh decides (asserted ∧ extras) from scratch on this (dedicated) solver process.
+func (s *Solver) DecideFresh(ctx *Ctx, asserted []*Term, extras []*Term) Result {
+	s.isFresh = true
+	s.NoFallback = true
+	s.Begin(ctx)
+	s.declareNew()
+	for _, t := range asserted {
+		s.send("(assert " + Print(t) + ")")
+	}
+	t0 := time.Now()
+	r, _ := s.checkOnce(extras, nil, s.TimeoutMs)
+	s.SolverTime += time.Since(t0)
+	switch r {
+	case Sat:
+		s.NSat++
+	case Unsat:
+		s.NUnsat++
+	default:
+		s.NUnknown++
+	}
+	return r
+}
+
+// Asserted returns the permanent assertions of the current problem.
+func (s *Solver) Asserted() []*Term { return s.asserted }
 
 // checkOnce is the non-incremental variant: the process has just been reset and
 // loaded with the assertions; extras are asserted permanently, then check-sat.
